@@ -24,8 +24,8 @@ RULE = ("tables of 0-60 rows x 1-6 columns; header names needing CSV quoting (co
         "value) and int64; missing value in {absent, 0, -9999, only in other columns, everywhere}; Float / Integer / default type; blank "
         "lines; LF / CRLF; write cases with 1-4 results in any type order; distinct by (case kind, dtype request, missing class, ncols, "
         "has-blank-lines, eol, header class)")
-REQUIRED_COUNTERS = ["columns_read_and_compared", "mask_checks", "other_column_independence_checks", "error_line_checks", "files_written_and_parsed", "read_after_write_checks", "same_path_rereads"]
-ASSUMPTIONS = ["don't-care: textual form of missing cells in written files, fractional cells read as Integer, NaN/inf, ragged rows, rank != 1 on write",
+REQUIRED_COUNTERS = ["columns_read_and_compared", "mask_checks", "other_column_independence_checks", "error_line_checks", "files_written_and_parsed", "read_after_write_checks", "same_path_rereads", "ragged_other_column_checks"]
+ASSUMPTIONS = ["don't-care: textual form of missing cells in written files, fractional cells read as Integer, NaN/inf, rows too short to hold the requested column, rank != 1 on write",
                "integers are generated within +-2^53 (cells are parsed through float())"]
 
 DOUBLES = [0.0, -0.0, 1.0, -1.0, 0.1, 1 / 3.0, 5e-324, -5e-324, 2.2250738585072014e-308, 1.7976931348623157e+308, -1.7976931348623157e+308, 123456789.12345679,
@@ -97,7 +97,7 @@ def cases(ctx):
         yield {"kind": "write", "table": t, "order": order, "rseed": rng.randrange(10 ** 9)}
 
 
-def write_csv(table, path, blank_positions=None, mutate_other=None, target=None):
+def write_csv(table, path, blank_positions=None, mutate_other=None, target=None, ragged=None):
     """The harness's own writer: repr() floats, csv quoting for headers. Returns {row index -> 1-based file line}."""
     eol = table["eol"]
     lines = []
@@ -117,6 +117,16 @@ def write_csv(table, path, blank_positions=None, mutate_other=None, target=None)
             if mutate_other is not None and ci != target:
                 v = mutate_other(ci, r, v)
             cells.append(repr(int(v)) if c["integer"] else repr(float(v)))
+        if ragged is not None:
+            # rows that are longer or shorter than the header in *other* columns: a trailing delimiter, an extra cell, or the
+            # cells after the requested column left out
+            k = ragged.random()
+            if k < 0.3:
+                cells.append("")
+            elif k < 0.45:
+                cells.append("17")
+            elif k < 0.7 and target is not None and target < len(cells) - 1:
+                cells = cells[:ragged.randint(target + 1, len(cells) - 1)]
         lines.append(",".join(cells))
         row_line[r] = len(lines) + extra
     if blank_positions and table["nrows"] in blank_positions:
@@ -207,6 +217,14 @@ def run_read(ctx, case):
         ctx.count("other_column_independence_checks")
         if not out2.ok or arr.digest(out2.value) != arr.digest(res):
             ctx.fail("read:other-columns-influence-result", {"second": arr.describe(out2.value) if out2.ok else out2.err, "first": arr.describe(res)})
+            return
+    # other columns cut short or running over (a trailing delimiter, an extra cell, cells after the requested one left out)
+    if t["nrows"] and (len(t["cols"]) > 1 or case["target"] == 0):
+        write_csv(t, path, blanks, target=case["target"], ragged=random.Random(case["rseed"] + 1))
+        outr = _read(arr.new_program(working_dir=d), path, "R", col["name"], dtype, missing)
+        ctx.count("ragged_other_column_checks")
+        if not outr.ok or arr.digest(outr.value) != arr.digest(res):
+            ctx.fail("read:other-columns-influence-result:rows-of-other-length", {"second": arr.describe(outr.value) if outr.ok else (outr.inner() or outr.err), "error": str(outr.exc)[:200] if not outr.ok else None, "first": arr.describe(res)})
             return
     # the same path rewritten with different values in the target column itself: the next read must return the new values
     if t["nrows"] and not integer_req:
